@@ -222,6 +222,7 @@ func parentMain(prop *Property, tier string, seed int64, verifDir string, nworke
 	var mu sync.Mutex
 	next := 0
 	results := []*Result{}
+	byIdx := map[int]*Result{}
 	var wg sync.WaitGroup
 	self, _ := os.Executable()
 	for w := 0; w < nworkers; w++ {
@@ -289,7 +290,20 @@ func parentMain(prop *Property, tier string, seed int64, verifDir string, nworke
 					start()
 				}
 				mu.Lock()
-				results = append(results, res)
+				if prev, again := byIdx[idx]; again {
+					// second attempt of a scenario whose first time slice ran out: keep the better one
+					if betterResult(res, prev) {
+						*prev = *res
+					}
+				} else {
+					byIdx[idx] = res
+					results = append(results, res)
+					// thorough tier: a scenario cut off by its slice gets another, larger one from
+					// whatever the cheaper scenarios left over
+					if tier == "thorough" && !res.Exhaustive && res.CapHit == "internal deadline" && len(res.Findings) == 0 && time.Until(deadline) > 30*time.Second {
+						order = append(order, idx)
+					}
+				}
 				mu.Unlock()
 			}
 			stdin.Close()
@@ -593,42 +607,47 @@ func runVs(c *RunCtx, sp *VsSpec) *Result {
 		prune = false
 	}
 	maxP := sp.P
-	if prune && sp.Prune {
-		// State-key pruning assumes that goroutines influence each other only through
-		// operations the scheduler sees. Validate it on this scenario first: the pruned
-		// and the unpruned search must produce the same set of behaviours at a small
-		// bound; otherwise pruning is not used.
-		vb := 1
-		if sp.P < vb {
-			vb = sp.P
-		}
-		plain, v1 := vs.Explore(sp.Body, chk, vs.Bounds{P: vb, D: sp.D, Deadline: c.Deadline, Delay: sp.Delay})
-		pruned, v2 := vs.Explore(sp.Body, chk, vs.Bounds{P: vb, D: sp.D, Deadline: c.Deadline, Delay: sp.Delay, Prune: true})
-		same := v1 == nil && v2 == nil && plain.Exhaustive && pruned.Exhaustive && len(plain.Distinct) == len(pruned.Distinct)
-		if same {
-			for h := range plain.Distinct {
-				if !pruned.Distinct[h] {
-					same = false
-					break
-				}
-			}
-		}
-		if same {
-			res.addExtra("scenarios_with_validated_state_pruning", 1)
-			if sp.PruneP > maxP {
-				maxP = sp.PruneP
-			}
-		} else if v1 == nil && v2 == nil && (!plain.Exhaustive || !pruned.Exhaustive) {
-			prune = false
-			res.addExtra("scenarios_where_state_pruning_could_not_be_validated_in_time", 1)
-		} else {
-			prune = false
-			res.addExtra("scenarios_where_state_pruning_was_rejected", 1)
-		}
+	// State-key pruning assumes that goroutines influence each other only through
+	// operations the scheduler sees. It is validated per scenario: the lower bounds
+	// (0 and 1) are always explored without it; then the pruned search is run at
+	// bound 1 and must produce the same set of behaviours, otherwise pruning is not
+	// used and the scenario stops at its declared bound.
+	wantPrune := prune && sp.Prune
+	vb := 1
+	if sp.P < vb {
+		vb = sp.P
+	}
+	if wantPrune {
+		prune = false
 	}
 	for p := 0; p <= maxP; p++ {
 		b := vs.Bounds{P: p, D: sp.D, Deadline: c.Deadline, MaxExecs: sp.MaxExecs, Delay: sp.Delay, Prune: prune}
 		st, v := vs.Explore(sp.Body, chk, b)
+		if wantPrune && p == vb && v == nil && st.Exhaustive {
+			wantPrune = false
+			pruned, v2 := vs.Explore(sp.Body, chk, vs.Bounds{P: vb, D: sp.D, Deadline: c.Deadline, Delay: sp.Delay, Prune: true})
+			same := v2 == nil && pruned.Exhaustive && len(st.Distinct) == len(pruned.Distinct)
+			if same {
+				for h := range st.Distinct {
+					if !pruned.Distinct[h] {
+						same = false
+						break
+					}
+				}
+			}
+			switch {
+			case same:
+				res.addExtra("scenarios_with_validated_state_pruning", 1)
+				prune = true
+				if sp.PruneP > maxP {
+					maxP = sp.PruneP
+				}
+			case v2 == nil && !pruned.Exhaustive:
+				res.addExtra("scenarios_where_state_pruning_could_not_be_validated_in_time", 1)
+			default:
+				res.addExtra("scenarios_where_state_pruning_was_rejected", 1)
+			}
+		}
 		if p == maxP || v != nil || !st.Exhaustive {
 			total = st
 		}
@@ -693,6 +712,31 @@ func runVs(c *RunCtx, sp *VsSpec) *Result {
 		res.Samples = append(res.Samples, sp.Sample())
 	}
 	return res
+}
+
+// betterResult: complete beats cut off, then the higher completed bound, then more executions.
+func betterResult(a, b *Result) bool {
+	if len(a.Findings) != len(b.Findings) {
+		return len(a.Findings) > len(b.Findings)
+	}
+	if a.Exhaustive != b.Exhaustive {
+		return a.Exhaustive
+	}
+	bound := func(r *Result) float64 {
+		for _, k := range []string{"P", "scheduler_deviations", "depth"} {
+			switch v := r.Bounds[k].(type) {
+			case float64:
+				return v
+			case int:
+				return float64(v)
+			}
+		}
+		return -1
+	}
+	if bound(a) != bound(b) {
+		return bound(a) > bound(b)
+	}
+	return a.Evals > b.Evals
 }
 
 func replayVs(sp *VsSpec, picks []int, w io.Writer) string {
